@@ -161,7 +161,7 @@ def run(tier, seed, replay=None):
                          'what': 'the join-path resolver routes a name differently from resolve_database_table'})
     # ---------------- plan-level judge
     n = 300 if tier == 'quick' else 4000
-    feats = plangen.ALL_FEATURES - {'nested', 'cte'}
+    feats = plangen.ALL_FEATURES - {'nested'}
     prows = []
     stats = {'plans': 0, 'fetch_steps': 0, 'predictor_steps': 0}
     catd = dict(cats)
@@ -170,6 +170,7 @@ def run(tier, seed, replay=None):
         rp = json.loads(open(replay).read())
         inputs = [(rp['sql'], rp.get('catalog', 'names'))] if 'sql' in rp else []
     else:
+        inputs += [(sq, cn) for sq in plangen.EDGE_STATEMENTS for cn, _ in cats]
         for _ in range(n):
             sql, meta = plangen.gen_statement(rng, feats)
             inputs.append((sql, rng.choice(cats)[0]))
